@@ -199,7 +199,9 @@ impl IsElement<VElem> for VElem {
     unsafe fn finalize(entry: &Entry, guard: &Guard) {
         let elem = Self::element_of(entry);
         crate::verif::ev(crate::verif::site::EV_L_FINALIZE, elem as *const _ as usize, elem.id as u64, 0);
-        guard.defer_destroy(RawShared::from(elem as *const VElem));
+        // The element is deliberately leaked: the harness counts finalizations, and a second one must be
+        // an observation rather than a double free.
+        let _ = guard;
     }
 }
 
